@@ -344,6 +344,23 @@ theorem first_append_none (l₁ l₂ : List (Option Nat)) (h : firstErr l₁ = n
       omega
     | some e' => simp at h
 
+/-- the first failing position holds the returned error, every position before it holds a success -/
+theorem first_spec (l : List (Option Nat)) (e : Nat) (h : firstErr l = some e) :
+    l[firstBad l]? = some (some e) ∧ ∀ j, j < firstBad l → l[j]? = some none := by
+  induction l with
+  | nil => simp at h
+  | cons a l ih =>
+    cases a with
+    | none =>
+      simp at h
+      obtain ⟨h1, h2⟩ := ih h
+      refine ⟨by simpa using h1, ?_⟩
+      intro j hj
+      cases j with
+      | zero => simp
+      | succ j => simp at hj; simpa using h2 j hj
+    | some e' => simp at h; simp [h]
+
 theorem sizeAll_cons (c : T) (cs : List T) : sizeAll (c :: cs) = c.size + sizeAll cs := by
   simp [sizeAll, T.size, postorderAll]
 
@@ -524,8 +541,8 @@ namespace PV
 open PV.Text
 
 theorem everySecond_length {α} : ∀ l : List α, (everySecond l).length = (l.length + 1) / 2
-  | [] => rfl
-  | [_] => rfl
+  | [] => by simp [everySecond]
+  | [_] => by simp [everySecond]
   | _ :: _ :: r => by simp [everySecond, everySecond_length r]; omega
 
 /-- `everySecond` takes the elements at the even indices -/
@@ -569,20 +586,17 @@ theorem evalKeyValue_spec (ev : Node → EvalOut) (kv : Node) (acc : List (Bytes
     cases kcs[0]? with
     | none => simp [Option.elim]
     | some kn =>
-      simp only [Option.elim, Walk.except_pure, Walk.except_bind_ok]
-      cases ev kn with
-      | ok key =>
-        simp only [EvalOut.toExcept, Walk.except_bind_ok]
-        cases kcs[2]? with
-        | none => simp
-        | some vn =>
-          simp only [Walk.except_bind_ok]
-          cases ev vn with
-          | ok v => cases key <;> simp
-          | err p m => simp
-          | panic s => simp
-      | err p m => simp [EvalOut.toExcept]
-      | panic s => simp [EvalOut.toExcept]
+      cases kcs[2]? with
+      | none => cases h1 : ev kn <;> simp [Option.elim, EvalOut.toExcept, h1]
+      | some vn =>
+        cases h1 : ev kn with
+        | ok key =>
+          cases h2 : ev vn with
+          | ok v => cases key <;> simp [Option.elim, EvalOut.toExcept, h1, h2]
+          | err p m => simp [Option.elim, EvalOut.toExcept, h1, h2]
+          | panic s => simp [Option.elim, EvalOut.toExcept, h1, h2]
+        | err p m => simp [Option.elim, EvalOut.toExcept, h1]
+        | panic s => simp [Option.elim, EvalOut.toExcept, h1]
   | term _ _ _ _ => simp [evalKeyValue, kvOf]
   | empty _ => simp [evalKeyValue, kvOf]
   | eof _ => simp [evalKeyValue, kvOf]
@@ -607,21 +621,21 @@ theorem evalObject_spec (ev : Node → EvalOut) : ∀ cs acc,
 theorem mapGet_objSet (m : List (Bytes × V)) (k' : Bytes) (v : V) (k : Bytes) :
     mapGet (objSet m k' v) k = if k = k' then some v else mapGet m k := by
   induction m with
-  | nil => by_cases h : k = k' <;> simp [objSet, mapGet, List.find?_cons, h, eq_comm]
+  | nil => by_cases h : k = k' <;> simp [objSet, mapGet, h, eq_comm]
   | cons a m ih =>
     obtain ⟨ka, va⟩ := a
     unfold objSet
     by_cases h1 : k' = ka
     · subst h1
-      by_cases h : k = k' <;> simp [mapGet, List.find?_cons, h, eq_comm]
+      by_cases h : k = k' <;> simp [mapGet, h, eq_comm]
     · simp only [h1, if_false]
       by_cases h2 : ka = k
       · subst h2
         have : ¬ ka = k' := fun h => h1 h.symm
-        simp [mapGet, List.find?_cons, this]
+        simp [mapGet, this]
       · have ih' := ih
         simp only [mapGet] at ih' ⊢
-        simp [List.find?_cons, h2, ih']
+        simp [h2, ih']
 
 /-- the last pair with key `k` decides (later duplicates overwrite earlier ones) -/
 theorem mapGet_foldl (kvs : List (Bytes × V)) (m : List (Bytes × V)) (k : Bytes) :
